@@ -188,7 +188,10 @@ fn run(input: RunInput) -> ScenFuture {
                 }
                 aff.insert(k, Affinity::High);
                 l.net.known_peers().insert(PeerInfo { peer_id: d.peer_id, affinity: PeerAffinity::High, address: vec![d.addr.into()] });
-                sleep_ms(2 * tick_ms + 1_600 + settle_ms).await;
+                // (with a stale address on file before, a dial of that address may still be under way -
+                // up to the connect timeout - and is followed by a backoff of up to 400 ms before the
+                // peer is dialed at its real address: sweep seeds 1101-1105)
+                sleep_ms(2 * tick_ms + 1_600 + settle_ms + if stale_addresses { 1_500 + 400 + tick_ms } else { 0 }).await;
                 // stop further background dials to keep the history sequential
                 l.net.known_peers().insert(PeerInfo { peer_id: d.peer_id, affinity: PeerAffinity::High, address: vec![] });
                 let connected = l.net.peers().contains(&d.peer_id);
